@@ -1,5 +1,6 @@
 """C13 primality test (src/prime.rs): Miller-Rabin with 20 random bases drawn from the hooked generator."""
 import math
+import lib
 from lib import line, Id, Case
 
 RULE = ('every n below a bound (and a few n <= 1) under seeded draws; Carmichael numbers (Korselt search + Chernick triples), '
@@ -187,6 +188,8 @@ def mk(n, seed, script, tag, expected=None, nontrivial=None):
                 oracle=None if expected is None else o_ref(n, expected), always_oracle=expected is not None,
                 nontrivial=nt, tag=tag)
 
+PROFILES = ('debug', 'release')
+
 def cases(rng, tier):
     th = tier == 'thorough'
     out = []
@@ -312,4 +315,6 @@ def cases(rng, tier):
     for n in cons:
         if n < 2 ** 64:
             out.append(C01.c_fact('ecm_factorize', n, seed(), [], 'debug', 'consumer-ecm-factorize'))
+    # a slice of the cases again on the release build of the implementation (wrapping arithmetic, debug assertions off)
+    out += lib.release_slice(out, rng, 0.05, plain_ops=('is_prime',))
     return out
